@@ -2,6 +2,7 @@ package main
 
 import (
 	"bytes"
+	"context"
 	"encoding/json"
 	"flag"
 	"fmt"
@@ -48,18 +49,20 @@ func loadKnown(verif string) ([]KnownFinding, error) {
 }
 
 type checker struct {
-	id      string
-	tier    string
-	seed    uint64
-	verif   string
-	bin     string
-	build   string
-	entry   props.Entry
-	desc    kit.Description
-	known   []KnownFinding
-	knownKs string
-	workers int
-	t0      time.Time
+	id       string
+	tier     string
+	seed     uint64
+	verif    string
+	bin      string
+	binPlain string
+	build    string
+	entry    props.Entry
+	desc     kit.Description
+	known    []KnownFinding
+	knownKs  string
+	workers  int
+	wallS    int
+	t0       time.Time
 
 	distinctAtFailure int
 }
@@ -117,6 +120,7 @@ func cmdCheck(args []string) int {
 	eng := entry.New(knownSet(c.knownKs))
 	c.desc = eng.Describe()
 	c.bin = *binPlain
+	c.binPlain = *binPlain
 	if c.desc.NeedsRace {
 		c.bin = *binRace
 	}
@@ -136,19 +140,29 @@ func cmdCheck(args []string) int {
 func (c *checker) raceEnv(logPrefix string) []string {
 	env := os.Environ()
 	if c.desc.NeedsRace {
-		env = append(env, "GORACE=halt_on_error=0 log_path="+logPrefix+" history_size=2")
+		env = append(env, "VERIF_LIN_BIN="+c.binPlain)
+		env = append(env, "GORACE=halt_on_error=0 exitcode=0 log_path="+logPrefix+" history_size=2")
 	}
 	return env
 }
 
 // spawn runs the worker binary with args and returns stdout, stderr, exit code.
 func (c *checker) spawn(tag string, args ...string) ([]byte, string, int) {
-	cmd := exec.Command(c.bin, args...)
+	limit := 180 * time.Second
+	if len(args) > 0 && args[0] == "work" {
+		limit = time.Duration(c.wallS+240) * time.Second
+	}
+	ctx, cancel := context.WithTimeout(context.Background(), limit)
+	defer cancel()
+	cmd := exec.CommandContext(ctx, c.bin, args...)
 	var so, se bytes.Buffer
 	cmd.Stdout, cmd.Stderr = &so, &se
 	cmd.Env = c.raceEnv(filepath.Join(c.outDir(), "race-"+tag))
 	err := cmd.Run()
 	code := 0
+	if ctx.Err() != nil {
+		return so.Bytes(), "process exceeded its time limit of " + limit.String() + " and was killed\n" + se.String(), -2
+	}
 	if err != nil {
 		if ee, ok := err.(*exec.ExitError); ok {
 			code = ee.ExitCode()
@@ -216,6 +230,7 @@ func (c *checker) run() int {
 	if v := envInt("VERIF_RUNS", 0); v > 0 {
 		budget.Runs = v
 	}
+	c.wallS = budget.WallS
 	fmt.Printf("check %s tier=%s VERIF_SEED=%d workers=%d budget=%d runs / %ds\n", c.id, c.tier, c.seed, c.workers, budget.Runs, budget.WallS)
 
 	// 1. model self-tests
